@@ -16,7 +16,7 @@ EXPLANATION = (
     "iteration of the matching loop pushes exactly one report, and phase two zips self.hunks with those reports; (R4) order: the "
     "frozen line handed to the next hunk is line + len(old side) - suffix context of the hunk just applied (the first line after its "
     "changed region), and in normal mode a hunk is only reported Applied at a position the range engine proves to be at or after that "
-    "line. Not decided: equality of line contents (slice comparison in matches(), C02-R4), rollback replays (C04)."
+    "line. (R6) a hunk is placed only where the lines equal its old side byte for byte (C02-R4): the splice rewrites the whole matched range. Not decided: equality of line contents (slice comparison in matches(), C02-R4), rollback replays (C04)."
 )
 LEVEL_NOTE = "Undecided: byte content of the lines themselves; behaviour when hunks are rejected as misordered is a refusal, not a different result."
 
